@@ -60,13 +60,16 @@ def run_shard(rec, tier, seed, shard, nshards):
         for si in range(n_screens):
             per_sample = bool(rng.random() < 0.4)
             kw = gen.realistic_screen_kwargs(rng, n_samples=(1, 4), n_drugs=(2, 4), n_doses=(1, 2), n_rows=(2, 40), n_plates=(1, 10), p_dup=0.4, observed=str(rng.choice(["none", "some", "random", "all"], p=[0.35, 0.35, 0.25, 0.05])), plate_per_sample=per_sample)
+            if si == 1:
+                kw = gen.realistic_screen_kwargs(rng, n_samples=(2, 4), n_drugs=(3, 5), n_rows=(400, 700), n_plates=(110, 140), p_dup=0.3, observed="some")
+                rec.count("many_plate_screens")
             screen = Screen(**kw)
             shash = kit.array_hash(screen.observations) + kit.array_hash(screen.plate_names)
             plate_rows = {int(p.plate_id): tuple(int(i) for i in np.flatnonzero(np.asarray(p.selection_vector))) for p in screen.plates}
             observed = {pid for pid, rows_ in plate_rows.items() if bool(screen.observation_mask[rows_[0]])}
             unobserved = sorted(set(plate_rows) - observed)
             P = len(plate_rows)
-            n_chunks = int(rng.integers(1, P + 4))
+            n_chunks = int(rng.integers(1, min(P, 12) + 4))
             bsize = int(rng.integers(0, min(3, len(unobserved)) + 1))
             batch = sorted(int(x) for x in rng.choice(unobserved, size=bsize, replace=False)) if bsize else []
             batch_arg = batch if (batch or rng.random() < 0.5) else None
